@@ -31,6 +31,7 @@ package c27
 import (
 	"context"
 	"encoding/json"
+	"errors"
 	"fmt"
 	"io"
 	"log"
@@ -81,6 +82,23 @@ func init() {
 // and the next sender blocks forever.
 const kfMonitorStopped = "api-call-after-monitor-stopped:AutoReconnect=false:client_sub.go:resumech/pausech"
 
+// kfDeadConn (proposed KF-C27-1): a connection loss or failing request that
+// arrives while Client.monitor is still restoring subscriptions after a
+// previous reconnect is lost: the failed recreate only continues the range
+// loop, the monitor reports Connected and discards the error of the broken
+// connection when it "clears sechan errors from reconnection". The client
+// stays Connected on a dead connection for ever. While the finding is open the
+// script does not inject a second fault before the reconnect that the first
+// one caused has finished (DESIGN 3.5: excluded by construction).
+const (
+	kfDeadConn   = "fault-during-reconnect:Connected-on-dead-connection:client.go:monitor-clears-sechanErr"
+	kfDeadConnID = "KF-C27-1"
+)
+
+func excludeFaultDuringReconnect() bool {
+	return ev.HasOpen("C27", kfDeadConnID) || os.Getenv("VERIF_C27_DEV_ASSUME_KF") != ""
+}
+
 // ---------------------------------------------------------------------------
 // case
 
@@ -122,10 +140,12 @@ func genCase(t *rapid.T) Case {
 		SessionLost:   rapid.Bool().Draw(t, "sessionLost"),
 		TransferOK:    rapid.Bool().Draw(t, "transferOK"),
 	}
-	n := rapid.IntRange(3, ev.Pick(12, 14)).Draw(t, "nactions")
+	// rapid's integer generators favour small values; the modulo spreads the
+	// script lengths and the operations evenly (and still shrinks towards 0)
+	n := 3 + int(rapid.Uint64().Draw(t, "nactions")%uint64(ev.Pick(10, 12)))
 	for i := 0; i < n; i++ {
 		var a Action
-		x := rapid.IntRange(0, 99).Draw(t, "op")
+		x := int(rapid.Uint64().Draw(t, "op") % 100)
 		if i == 0 {
 			x = 0 // a script without a subscription says nothing
 		}
@@ -192,6 +212,20 @@ type world struct {
 	faults   int
 	events   []string
 	t0       time.Time
+	open     map[int]bool // connections that are not closed
+}
+
+func (w *world) onConn(c *script.Conn) {
+	w.mu.Lock()
+	w.open[c.ID] = true
+	w.mu.Unlock()
+}
+
+func (w *world) onClose(c *script.Conn, err error) {
+	w.mu.Lock()
+	delete(w.open, c.ID)
+	w.logf("server: conn#%d closed (%v)", c.ID, err)
+	w.mu.Unlock()
 }
 
 func (w *world) logf(format string, args ...any) {
@@ -376,15 +410,20 @@ type call struct {
 }
 
 type run struct {
-	w    *world
-	cl   *opcua.Client
-	ctx  context.Context
-	mu   sync.Mutex
-	subs []*hsub
-	all  []*call
-	nt   bool // some api call was issued while a publish was outstanding
-	cls  map[string]bool
-	nch  chan *opcua.PublishNotificationData
+	c         Case
+	stMu      sync.Mutex
+	states    []opcua.ConnState // every state the client reported
+	disturbed int               // len(states) when the last fault was injected (-1: none pending)
+	w         *world
+	cl        *opcua.Client
+	ctx       context.Context
+	mu        sync.Mutex
+	subs      []*hsub
+	all       []*call
+	nt        bool // some api call was issued while a publish was outstanding
+	deferred  bool // a fault was deferred because of the open known finding
+	cls       map[string]bool
+	nch       chan *opcua.PublishNotificationData
 }
 
 // apiCallGoroutine is the body of every API call goroutine; its name marks the
@@ -425,6 +464,66 @@ func (r *run) launch(idx int, desc string, waitMs int, f func() error) {
 			r.cls["api-call-still-running-when-next-action-starts"] = true
 		}
 	}
+}
+
+func (r *run) onState(s opcua.ConnState) {
+	r.stMu.Lock()
+	r.states = append(r.states, s)
+	r.stMu.Unlock()
+}
+
+func (r *run) disturb() {
+	r.stMu.Lock()
+	r.disturbed = len(r.states)
+	r.stMu.Unlock()
+}
+
+// settle waits until the reconnect caused by the previous fault has finished
+// (only while the known finding about faults during a reconnect is open).
+func (r *run) settle() {
+	r.stMu.Lock()
+	from := r.disturbed
+	r.stMu.Unlock()
+	if from < 0 || !r.c.AutoReconnect || !excludeFaultDuringReconnect() {
+		return
+	}
+	t0 := time.Now()
+	wait := func(bound time.Duration, ok func(after []opcua.ConnState) bool) bool {
+		deadline := time.Now().Add(bound)
+		for {
+			r.stMu.Lock()
+			good := ok(r.states[from:])
+			r.stMu.Unlock()
+			if good {
+				return true
+			}
+			if time.Now().After(deadline) {
+				return false
+			}
+			time.Sleep(2 * time.Millisecond)
+		}
+	}
+	noticed := wait(2*time.Second, func(after []opcua.ConnState) bool {
+		for _, s := range after {
+			if s != opcua.Connected {
+				return true
+			}
+		}
+		return false
+	})
+	if !noticed {
+		r.cls["fault-not-noticed-by-the-connection-monitor"] = true
+	} else {
+		wait(10*time.Second, func(after []opcua.ConnState) bool { return len(after) > 0 && after[len(after)-1] == opcua.Connected })
+		time.Sleep(50 * time.Millisecond) // the monitor finishes its bookkeeping after reporting Connected
+		if time.Since(t0) > 60*time.Millisecond {
+			r.cls["next-fault-deferred-until-reconnect-finished("+kfDeadConnID+")"] = true
+			r.deferred = true
+		}
+	}
+	r.stMu.Lock()
+	r.disturbed = -1
+	r.stMu.Unlock()
 }
 
 func (r *run) pick(i int) *hsub {
@@ -509,8 +608,10 @@ func (r *run) do(idx int, a Action) {
 			return err
 		})
 	case "drop":
+		r.settle()
 		r.w.note("env: drop all connections")
 		r.w.srv.DropConns()
+		r.disturb()
 		r.cls["env:drop"] = true
 		time.Sleep(time.Duration(a.WaitMs) * time.Millisecond)
 	case "withhold":
@@ -525,6 +626,9 @@ func (r *run) do(idx int, a Action) {
 		}
 		time.Sleep(time.Duration(a.WaitMs) * time.Millisecond)
 	case "release", "fail":
+		if a.Op == "fail" && ua.StatusCode(a.Status) != ua.StatusBadNoSubscription {
+			r.settle()
+		}
 		var p *pubReq
 		for i := 0; i < 30 && p == nil; i++ {
 			r.w.mu.Lock()
@@ -549,6 +653,9 @@ func (r *run) do(idx int, a Action) {
 		}
 		if a.Op == "fail" {
 			r.cls["env:fail:"+ua.StatusCode(a.Status).Error()] = true
+			if ua.StatusCode(a.Status) != ua.StatusBadNoSubscription {
+				r.disturb()
+			}
 		} else {
 			r.cls["env:release"] = true
 		}
@@ -675,9 +782,12 @@ func parked(base map[int]bool, sel func(gor) bool) (same []string, changed bool)
 // ---------------------------------------------------------------------------
 // execution
 
+// errSetup: the case could not be set up (loaded machine); it is discarded.
+var errSetup = errors.New("set-up failed")
+
 type result struct {
 	verdict string
-	known   bool // the failure has the signature of the known finding
+	known   string // signature of the known finding the failure matches ("" = none)
 	starved bool
 	nontriv bool
 	classes []string
@@ -690,8 +800,8 @@ func execute(c Case) (res result, err error) {
 		base[g.id] = true
 	}
 	hb := starve.Begin()
-	w := &world{c: c, live: map[uint32]bool{}, seq: map[uint32]uint32{}, tokConn: map[string]int{}, t0: time.Now()}
-	srv, e := script.Start(script.Options{Handle: w.handle})
+	w := &world{c: c, live: map[uint32]bool{}, seq: map[uint32]uint32{}, tokConn: map[string]int{}, t0: time.Now(), open: map[int]bool{}}
+	srv, e := script.Start(script.Options{Handle: w.handle, OnConn: w.onConn, OnClose: w.onClose})
 	if e != nil {
 		return res, fmt.Errorf("script server: %v", e)
 	}
@@ -699,18 +809,36 @@ func execute(c Case) (res result, err error) {
 	defer srv.Close()
 	ctx, cancel := context.WithCancel(context.Background())
 	defer cancel()
+	r := &run{c: c, disturbed: -1, w: w, ctx: ctx, cls: map[string]bool{}, nch: make(chan *opcua.PublishNotificationData, 256)}
 	cl, e := opcua.NewClient(srv.URL, opcua.SecurityMode(ua.MessageSecurityModeNone), opcua.RequestTimeout(requestTimeout),
-		opcua.AutoReconnect(c.AutoReconnect), opcua.ReconnectInterval(50*time.Millisecond))
+		opcua.AutoReconnect(c.AutoReconnect), opcua.ReconnectInterval(50*time.Millisecond), opcua.StateChangedFunc(r.onState))
 	if e != nil {
 		return res, e
 	}
-	cctx, ccancel := context.WithTimeout(ctx, 10*time.Second)
-	e = cl.Connect(cctx)
-	ccancel()
-	if e != nil {
-		return res, fmt.Errorf("connect: %v", e)
+	r.cl = cl
+	// with a request timeout of 500 ms the connection set-up itself can time
+	// out on a loaded machine: that is not what this property is about
+	for attempt := 0; ; attempt++ {
+		cctx, ccancel := context.WithTimeout(ctx, 10*time.Second)
+		e = cl.Connect(cctx)
+		ccancel()
+		if e == nil {
+			break
+		}
+		if attempt >= 8 {
+			return res, fmt.Errorf("%w: connect: %v", errSetup, e)
+		}
+		time.Sleep(time.Duration(100*(attempt+1)) * time.Millisecond)
+		cl, e = opcua.NewClient(srv.URL, opcua.SecurityMode(ua.MessageSecurityModeNone), opcua.RequestTimeout(requestTimeout),
+			opcua.AutoReconnect(c.AutoReconnect), opcua.ReconnectInterval(50*time.Millisecond), opcua.StateChangedFunc(r.onState))
+		if e != nil {
+			return res, e
+		}
+		r.cl = cl
+		r.stMu.Lock()
+		r.states = nil
+		r.stMu.Unlock()
 	}
-	r := &run{w: w, cl: cl, ctx: ctx, cls: map[string]bool{}, nch: make(chan *opcua.PublishNotificationData, 256)}
 	go func() {
 		for {
 			select {
@@ -760,6 +888,19 @@ func execute(c Case) (res result, err error) {
 	w.mu.Unlock()
 
 	finish := func(verdict string, parkedSigs []string) {
+		if strings.HasPrefix(verdict, "no PublishRequest") && !c.AutoReconnect && cl.State() == opcua.Closed {
+			// the last fault stopped the connection monitor after the script had
+			// ended: there is no publish loop any more (KF-C21-1's root cause)
+			r.cls["progress-clauses-skipped(client-Closed,AutoReconnect=false)"] = true
+			return
+		}
+		w.mu.Lock()
+		nopen := len(w.open)
+		w.mu.Unlock()
+		if nopen == 0 && cl.State() == opcua.Connected && strings.HasPrefix(verdict, "no PublishRequest") {
+			verdict += "; the client reports Connected but every connection it made is closed"
+			res.known = kfDeadConn
+		}
 		res.verdict = verdict
 		res.obs.Verdict = verdict
 		res.obs.Parked = parkedSigs
@@ -799,8 +940,19 @@ func execute(c Case) (res result, err error) {
 	}
 
 	defer func() {
+		if os.Getenv("VERIF_C27_DEV_TRACE") != "" {
+			w.mu.Lock()
+			fmt.Println(strings.Join(w.events, "\n"))
+			w.mu.Unlock()
+			for _, g := range dumpAll() {
+				if !base[g.id] && len(g.gopcuaFrames()) > 0 {
+					fmt.Println("   ", g.sig())
+				}
+			}
+		}
 		res.nontriv = r.nt
 		r.cls[fmt.Sprintf("AutoReconnect=%v", c.AutoReconnect)] = true
+		r.cls[fmt.Sprintf("actions=%d-%d", len(c.Actions)/4*4, len(c.Actions)/4*4+3)] = true
 		if w.faults > 0 {
 			r.cls["some-publish-failed"] = true
 		}
@@ -838,7 +990,7 @@ func execute(c Case) (res result, err error) {
 		}
 		all, _ := parked(base, isLoop)
 		if monitorStopped() && atSignals(sigs) {
-			res.known = true
+			res.known = kfMonitorStopped
 		}
 		finish(fmt.Sprintf("%d API call(s) blocked for more than %v after the server answered everything (same frames in two goroutine dumps 1 s apart)", len(sigs), hangBound), all)
 		return res, nil
@@ -989,12 +1141,12 @@ func decide(c *Case, logf func(string, ...any)) (msg string, res result, err err
 		if r2.verdict == "" || r2.starved {
 			return inconclusive("confirmation-not-3/3")
 		}
-		if !r2.known {
-			first.known = false
+		if r2.known != first.known {
+			first.known = ""
 		}
 	}
-	if first.known && rec.Known(kfMonitorStopped) {
-		first.classes = append(first.classes, "excluded(known-finding:monitor-stopped)")
+	if first.known != "" && rec.Known(first.known) {
+		first.classes = append(first.classes, "excluded(known-finding:"+first.known+")")
 		return "", first, nil
 	}
 	c.Observed = &obs
@@ -1010,6 +1162,10 @@ func TestDeadlock(t *testing.T) {
 		rec.Journal("TestDeadlock", c)
 		msg, res, err := decide(&c, func(f string, a ...any) { rt.Logf(f, a...) })
 		rec.JournalDone("TestDeadlock")
+		if errors.Is(err, errSetup) {
+			rec.Class("case-discarded(set-up-failed-on-a-loaded-machine)")
+			rt.Skip(err.Error())
+		}
 		if err != nil {
 			t.Fatalf("infrastructure failure (not a violation): %v", err)
 		}
@@ -1017,6 +1173,11 @@ func TestDeadlock(t *testing.T) {
 		cc.Observed = nil
 		b, _ := json.Marshal(cc)
 		rec.Case(res.nontriv, ev.Hash(b), res.classes...)
+		for _, k := range res.classes {
+			if strings.HasPrefix(k, "next-fault-deferred") {
+				rec.Excluded(kfDeadConnID)
+			}
+		}
 		if res.nontriv && rec.WantSample() {
 			rec.Sample(cc)
 		}
@@ -1051,4 +1212,3 @@ func TestReplay(t *testing.T) {
 	}
 	fmt.Println("re-execution held")
 }
-
